@@ -19,6 +19,7 @@ from gosym.mdd import TRUE  # noqa: E402
 
 _PROG = None
 _PROG_SCALED = None
+_ESCAPES = None
 _SEED = 0
 _DEFAULT_TIMEOUT = 600
 
@@ -164,7 +165,7 @@ def go_call(job, inputs):
 def _worker(job):
     """runs in a forked process; returns a picklable summary"""
     t0 = time.time()
-    res = {'label': job.label, 'harness': job.harness, 'ok': True, 'candidates': [], 'samples': [],
+    res = {'label': job.label, 'pkgdir': ('internal/fp' if job.pkg == FP else '.'), 'harness': job.harness, 'ok': True, 'candidates': [], 'samples': [],
            'stats': {}, 'error': None, 'inexact': 0, 'unsupported': []}
     try:
         sd = job.opts.get('scale_depth')
@@ -176,6 +177,9 @@ def _worker(job):
                 setattr(ex, k[3:], v)
         if job.opts.get('float_contract'):
             ses.use_float_contract()
+        if job.opts.get('monitor_alloc'):
+            ex.monitor_alloc = True
+            ex.escape_lines = _ESCAPES
         if job.opts.get('bits_intrinsics'):
             ses.use_bits_intrinsics()
         if job.opts.get('no_float_overflow'):
@@ -219,10 +223,10 @@ def _worker(job):
         # samples: concrete members of path classes that reached the harness marks
         for rid, lst in sorted(ses.reach_samples.items()):
             for pc, extras, nondet in lst[:job.opts.get('nsamples', 3)]:
-                verdict, assign = ses.model_pc(pc, extras)
+                verdict, assign = ses.model_pc(pc, extras, quick=True)
                 if verdict == 'sat':
                     inputs = {name: concrete_input(ex, assign, cells) for name, cells in cellsout}
-                    res['samples'].append({'mark': rid, 'scale_depth': sd, 'inputs': {k: v.hex() for k, v in inputs.items()},
+                    res['samples'].append({'mark': rid, 'scale_depth': sd, 'pkgdir': res['pkgdir'], 'inputs': {k: v.hex() for k, v in inputs.items()},
                                            'script': [_scriptval(ex, assign, t) for t in nondet],
                                            'call': go_call(job, inputs),
                                            'count': ex.mdd.count(pc, nbytes) if not extras else None})
@@ -305,6 +309,11 @@ class Check:
         finally:
             shutil.rmtree(work, ignore_errors=True)
         _SEED = self.seed
+        if any(j.opts.get('monitor_alloc') for j in self.jobs):
+            global _ESCAPES
+            from gosym.driver import gc_escapes
+            _ESCAPES = gc_escapes()
+            self.escape_lines = sorted(x.replace(REPO + '/', '') for x in _ESCAPES)
         global _DEFAULT_TIMEOUT
         _DEFAULT_TIMEOUT = 420 if self.tier == 'quick' else 2400
         self.prog = _PROG
@@ -326,6 +335,7 @@ class Check:
             for c in r['candidates']:
                 c['job'] = r['label']
                 c['scale_depth'] = r.get('scale_depth')
+                c['pkgdir'] = r.get('pkgdir', '.')
                 if c['verdict'] == 'sat':
                     cands.append(c)
                 elif c['verdict'] == 'unknown':
@@ -343,11 +353,11 @@ class Check:
         if not todo:
             return
         out = {}
-        for sd in sorted(set(c.get('scale_depth') for c in todo), key=lambda x: x or 0):
-            grp = [c for c in todo if c.get('scale_depth') == sd]
+        for sd, pk in sorted(set((c.get('scale_depth'), c.get('pkgdir', '.')) for c in todo), key=lambda x: (x[0] or 0, x[1])):
+            grp = [c for c in todo if c.get('scale_depth') == sd and c.get('pkgdir', '.') == pk]
             cases = [(c['rname'], c['script'], c['call']) for c in grp]
             try:
-                out.update(native_replay(cases, scale_depth=sd))
+                out.update(native_replay(cases, pkgdir=pk, scale_depth=sd))
             except Exception as e:
                 for c in grp:
                     self.unconfirmed.append({'job': c['job'], 'what': c['what'], 'reason': 'replay could not run: %s' % e})
@@ -378,7 +388,7 @@ class Check:
         path = os.path.join(VERIF, 'replays', '%s-%s.json' % (self.pid, h))
         os.makedirs(os.path.dirname(path), exist_ok=True)
         with open(path, 'w') as f:
-            json.dump({'property': self.pid, 'what': desc, 'call': c['call'], 'script': c['script'], 'scale_depth': c.get('scale_depth'),
+            json.dump({'property': self.pid, 'what': desc, 'call': c['call'], 'script': c['script'], 'scale_depth': c.get('scale_depth'), 'pkgdir': c.get('pkgdir', '.'),
                        'inputs': c.get('inputs'), 'native': c.get('native'), 'job': c['job']}, f, indent=1)
         if not any(v['what'] == desc for v in self.violations):
             self.violations.append({'what': desc, 'replay': path, 'call': c['call'], 'native': c.get('native')})
@@ -405,9 +415,9 @@ class Check:
             return 0, 0
         out = {}
         try:
-            for sd in sorted(set(s.get('scale_depth') for s in pool), key=lambda x: x or 0):
-                grp = [cs for cs, s in zip(cases, pool) if s.get('scale_depth') == sd]
-                out.update(native_replay(grp, scale_depth=sd))
+            for sd, pk in sorted(set((s.get('scale_depth'), s.get('pkgdir', '.')) for s in pool), key=lambda x: (x[0] or 0, x[1])):
+                grp = [cs for cs, s in zip(cases, pool) if s.get('scale_depth') == sd and s.get('pkgdir', '.') == pk]
+                out.update(native_replay(grp, pkgdir=pk, scale_depth=sd))
         except Exception as e:
             self.notes.append('sample replay could not run: %s' % e)
             return 0, 0
